@@ -125,7 +125,7 @@ class MoveImportsToTypeCheckingBlockVisitor(ContextAwareTransformer):
     def _remove_typing_module(import_item_list: List[ImportItem]) -> List[ImportItem]:
         ret: List[ImportItem] = []
         for import_item in import_item_list:
-            if import_item.module_name == "typing":
+            if import_item.module_name in ("typing", "__future__"):
                 continue
             if (
                 import_item.module_name == "mypy_extensions"
